@@ -427,7 +427,7 @@ def install_clock():
             if obj is _t:
                 setattr(mod, name, clock)
                 used = True
-            elif obj in (_t.time, _t.monotonic, _t.perf_counter):
+            elif any(obj is f_ for f_ in (_t.time, _t.monotonic, _t.perf_counter)):      # identity: globals may be arrays
                 setattr(mod, name, getattr(clock, obj.__name__))
                 used = True
     return clock if used else None
